@@ -84,7 +84,16 @@ def many_entries(n):
     return out
 
 
+ALIAS_ENTRIES = ['pkg/m.py', 'pkg/orphan.pyc', 'pkg/__pycache__/m.cpython-312.pyc', 'pkg/__pycache__/old.pyc',
+                 'pkg/.svn/entries.pyc', 'pkg/CVS/c.pyc', 'pkg/sub/s.pyo', 'pkg/sub/__pycache__/x.pyc', 'other/o.pyc']
+
+
 def cases(tier, seed):
+    # a directory reachable a second time through a symbolic link inside the
+    # search path (an alias of a package, a link to a parent)
+    for link in ('alias->pkg', 'zalias->pkg', 'pkg/up->..', 'aaa->pkg/sub'):
+        for ok in ('path', 'k', 'test-path'):
+            yield [['alias', link], ok]
     # trees that are not small: 99 / 100 / 101 / 270 / 1000 orphans in one run
     for n in (99, 100, 101, 270, 1000):
         for ok in ('path', 'k', 'j2'):
@@ -156,7 +165,11 @@ def classify(entries, ok):
 
 def run_case(case):
     combo, ok = case
-    if combo and combo[0] == 'many':
+    link = None
+    if combo and combo[0] == 'alias':
+        entries = list(ALIAS_ENTRIES)
+        link = combo[1]
+    elif combo and combo[0] == 'many':
         entries = many_entries(combo[1])
     else:
         entries = [MENU[i] for i in combo]
@@ -169,6 +182,10 @@ def run_case(case):
         os.makedirs(os.path.dirname(p), exist_ok=True)
         with open(p, 'w') as f:
             f.write('# %s\n' % e)
+    if link:
+        name, target = link.split('->')
+        os.symlink(os.path.join(root, os.path.dirname(name), target) if target == '..' else os.path.join(root, target),
+                   os.path.join(root, name))
     before = snapshot(root)
     if ok in ('j2', 'k+j2', 'usecompiled+resumed'):
         res = runrt.run_world(CHILD_WORLD, OPTS[ok](root), probe=False)
